@@ -36,6 +36,7 @@ LEVEL_TEXT = (
     "axis; all single and double edits of a 3-face ring and of a rotated 2-face 2-axis table): it accepts exactly the reciprocal tables and raises for every "
     "other one, for tables with several face dimensions, a face dimension missing from the dataset, unknown axes and unknown face indices; the constructor "
     "validates whatever it stores and no other function writes the stored table. Axis names are opaque, so the verdict holds for every naming."
+    " Tables are judged in both spellings (tuples with booleans, lists with 0/1), whatever order a face lists its axes in, and through the constructor itself."
 )
 LEVEL_NOTE = "Trusted: the abstract evaluator (self-tested on seeded variants); numpy membership for face indices."
 
